@@ -259,7 +259,8 @@ func isScalarKind(k reflect.Kind) bool {
 
 func (g *tgen) structT(depth, minFields int) reflect.Type {
 	n := g.r.Range(minFields, 5)
-	if g.r.Chance(0.03) {
+	if g.r.Chance(0.03) && !g.plain {
+		// (an empty struct is built from none of the statement's constituents: not in the plain family)
 		n = 0
 	}
 	used := map[string]bool{}
